@@ -116,7 +116,7 @@ class TagLibrary:
         """
 
         # Check for duplicates
-        if tag_name in self.__dict__:
+        if tag_name in self.__dict__ or hasattr(type(self), tag_name):  # Also reject names of the library's own members
             raise DuplicateTagError(tag_name)
         else:
             self.__dict__[tag_name] = self._tag_counter
@@ -220,6 +220,8 @@ def add_tag(tag_name: str):
     DuplicateTagError
         If a tag_name that already exists is used.
     """
+    if tag_name in globals():  # Module globals shadow the tag lookup done by __getattr__
+        raise DuplicateTagError(tag_name)
     _module_library.add_tag(tag_name)
 
 
